@@ -1035,6 +1035,34 @@ pub mod verif_hooks {
         super::glob::Pattern::new(pattern, caseless).matches(subject)
     }
 
+    /// One compiled glob applied to many subjects (bounded-exhaustive enumeration).
+    pub fn glob_match_many(pattern: &str, subjects: &[&str], caseless: bool) -> Vec<bool> {
+        let p = super::glob::Pattern::new(pattern, caseless);
+        subjects.iter().map(|s| p.matches(s)).collect()
+    }
+
+    /// One compiled -regex/-iregex matcher applied to many paths.
+    pub fn regex_match_many(
+        regextype: &str,
+        pattern: &str,
+        ignore_case: bool,
+        subjects: &[&str],
+    ) -> Result<Vec<bool>, String> {
+        let ty = super::regex::RegexType::from_str(regextype).map_err(|e| e.to_string())?;
+        let m = super::regex::RegexMatcher::new(ty, pattern, ignore_case)
+            .map_err(|e| e.to_string())?;
+        let deps = NullDeps {
+            out: RefCell::new(vec![]),
+        };
+        Ok(subjects
+            .iter()
+            .map(|s| {
+                let entry = WalkEntry::new(*s, 0, super::Follow::Never);
+                m.matches(&entry, &mut MatcherIO::new(&deps))
+            })
+            .collect())
+    }
+
     /// The -regex/-iregex matcher for `regextype` applied to the path `subject`
     /// (which need not exist). Errors are the ones find would report.
     pub fn regex_match(
